@@ -275,8 +275,11 @@ def main(argv=None):
         inconclusive.append("%d of %d shards produced results" % (len(results), len(specs)))
 
     wall = time.time() - t0
-    os.makedirs(os.path.join(VERIF, "evidence"), exist_ok=True)
-    os.makedirs(os.path.join(VERIF, "replays"), exist_ok=True)
+    # VERIF_SCRATCH_OUT: runs against scratch copies of the repository (seeded changes,
+    # mutants) write their evidence and replay files there, not over those of /repo
+    OUT = os.environ.get("VERIF_SCRATCH_OUT") or VERIF
+    os.makedirs(os.path.join(OUT, "evidence"), exist_ok=True)
+    os.makedirs(os.path.join(OUT, "replays"), exist_ok=True)
 
     rc = 0
     lines = []
@@ -292,7 +295,7 @@ def main(argv=None):
         seen.add(v["mech"])
         path = os.path.join("replays", "%s-%d.json" % (pid, k))
         k += 1
-        with open(os.path.join(VERIF, path), "w") as f:
+        with open(os.path.join(OUT, path), "w") as f:
             json.dump({"property": pid, "tier": tier, "seed": seed, "mech": v["mech"],
                        "detail": v["detail"], "case": v["case"]}, f, indent=1)
         lines.append("VIOLATION property=%s replay=%s" % (pid, path))
@@ -324,7 +327,7 @@ def main(argv=None):
         "coverage": cov, "assumptions": list(mod.ASSUMPTIONS), "wall_s": round(wall, 3),
         "violations": len(fresh),
     }
-    with open(os.path.join(VERIF, "evidence", "%s.json" % pid), "w") as f:
+    with open(os.path.join(OUT, "evidence", "%s.json" % pid), "w") as f:
         json.dump(ev, f, indent=1, sort_keys=True)
 
     for ln in lines:
